@@ -362,6 +362,21 @@ class _Rename(ast.NodeTransformer):
 # the inliner
 # ---------------------------------------------------------------------------------------------
 
+def _stmt_blocks(fn):
+    """statement lists of a function (not those of nested functions / classes)"""
+    todo = [fn]
+    while todo:
+        n = todo.pop()
+        for fld in ("body", "orelse", "finalbody"):
+            blk = getattr(n, fld, None)
+            if isinstance(blk, list) and blk and isinstance(blk[0], ast.stmt):
+                yield blk
+                todo.extend(x for x in blk if not isinstance(x, (ast.FunctionDef, ast.AsyncFunctionDef, ast.ClassDef)))
+        for h in getattr(n, "handlers", []) or []:
+            yield h.body
+            todo.extend(x for x in h.body if not isinstance(x, (ast.FunctionDef, ast.AsyncFunctionDef, ast.ClassDef)))
+
+
 class ModuleInliner:
     def __init__(self, modname: str, tree: ast.Module, known: Set[str], pkg: Optional[Dict[str, "ModuleInliner"]] = None, is_pkg: bool = False):
         self.modname = modname
@@ -1067,6 +1082,140 @@ class ModuleInliner:
             out.append(st)
         return out
 
+    # -- for loops over a new generator helper --------------------------------------------------------------------
+    def _expand_for_gen(self, st: ast.stmt, caller: Def) -> Optional[List[ast.stmt]]:
+        """`for T in gen(args): BODY` over a new generator helper of the shape  PREFIX; <one loop holding the yields>  (nothing after the loop, `return`
+        only directly in that loop): the helper's code with every `yield E` replaced by `T = E; BODY` and every `return` by `break`. BODY runs exactly where
+        the consumer would have run it; leaving BODY through `break` / `return` / an exception abandons the helper at the yield, which has no clean-up to do
+        (no try / with around a yield). `continue` in BODY is accepted only when the yield is the last statement of the helper's loop body."""
+        if not (isinstance(st, ast.For) and not st.orelse and isinstance(st.target, ast.Name) and isinstance(st.iter, ast.Call)):
+            return None
+        res = self._resolve(st.iter, caller)
+        if res is None:
+            return None
+        d, recv, skip = res
+        if d is caller or not self._eligible(d) or not _is_generator(d.node):
+            return None
+        fn_body = [x for x in d.node.body if not (isinstance(x, ast.Expr) and isinstance(x.value, ast.Constant) and isinstance(x.value.value, str))]
+        if not fn_body or not isinstance(fn_body[-1], (ast.While, ast.For)) or fn_body[-1].orelse:
+            return None
+        loop0 = fn_body[-1]
+        if any(isinstance(n, (ast.Yield, ast.YieldFrom, ast.Return)) for s2 in fn_body[:-1] for n in _walk_no_nested(s2)):
+            return None
+
+        def check(stmts, depth_try):
+            """yields are statements, not under try / with / a nested loop; returns are bare and not under a nested loop"""
+            for s2 in stmts:
+                if isinstance(s2, ast.Expr) and isinstance(s2.value, ast.Yield):
+                    if depth_try:
+                        return False
+                    continue
+                if isinstance(s2, ast.Return):
+                    if s2.value is not None:
+                        return False
+                    continue
+                if isinstance(s2, (ast.For, ast.While, ast.AsyncFor)):
+                    if any(isinstance(n, (ast.Yield, ast.YieldFrom, ast.Return)) for n in _walk_no_nested(s2)):
+                        return False
+                    continue
+                if isinstance(s2, (ast.FunctionDef, ast.AsyncFunctionDef, ast.ClassDef)):
+                    continue
+                if isinstance(s2, ast.If):
+                    if any(isinstance(n, (ast.Yield, ast.YieldFrom)) for n in ast.walk(s2.test)):
+                        return False
+                    if not check(s2.body, depth_try) or not check(s2.orelse, depth_try):
+                        return False
+                    continue
+                if isinstance(s2, (ast.Try, ast.With, ast.AsyncWith)):
+                    blocks = [s2.body] + ([s2.orelse, s2.finalbody] + [h.body for h in s2.handlers] if isinstance(s2, ast.Try) else [])
+                    for b in blocks:
+                        if not check(b, True):
+                            return False
+                    continue
+                if any(isinstance(n, (ast.Yield, ast.YieldFrom)) for n in _walk_no_nested(s2)):
+                    return False
+            return True
+        if not check(loop0.body, False):
+            return None
+        if isinstance(loop0, ast.While) and any(isinstance(n, (ast.Yield, ast.YieldFrom)) for n in ast.walk(loop0.test)):
+            return None
+        n_yields = sum(1 for n in _walk_no_nested(loop0) if isinstance(n, ast.Yield))
+        if n_yields == 0:
+            return None
+        # the consumer's body
+        body_nodes_ = [n for s2 in st.body for n in _walk_no_nested(s2)]
+        has_continue = False
+        has_break = False
+
+        def scan(stmts, in_loop):
+            nonlocal has_continue, has_break
+            for s2 in stmts:
+                if isinstance(s2, ast.Continue) and not in_loop:
+                    has_continue = True
+                if isinstance(s2, ast.Break) and not in_loop:
+                    has_break = True
+                if isinstance(s2, (ast.FunctionDef, ast.AsyncFunctionDef, ast.ClassDef)):
+                    continue
+                for fld in ("body", "orelse", "finalbody"):
+                    sub = getattr(s2, fld, None)
+                    if isinstance(sub, list) and sub and isinstance(sub[0], ast.stmt):
+                        scan(sub, in_loop or (isinstance(s2, (ast.For, ast.While)) and fld == "body"))
+                for h in getattr(s2, "handlers", []) or []:
+                    scan(h.body, in_loop)
+        scan(st.body, False)
+        if any(isinstance(n, (ast.Yield, ast.YieldFrom)) for n in body_nodes_):
+            return None
+        last = loop0.body[-1]
+        yield_last = isinstance(last, ast.Expr) and isinstance(last.value, ast.Yield) and n_yields == 1
+        if has_continue and not yield_last:
+            return None
+        if n_yields > 1 and len(st.body) > 3:
+            return None         # the consumer's body would be duplicated
+        try:
+            pre, body = self._prepare(d, st.iter, caller, recv, skip)
+        except Bail as e:
+            self.log.append(f"{caller.qual} :: {d.qual} not expanded: {e}")
+            return None
+        tname = st.target.id
+        if any(isinstance(n, ast.Name) and n.id == tname for s2 in body + pre for n in ast.walk(s2)):
+            return None
+        body_stored = _stored_names(ast.Module(body=list(st.body), type_ignores=[]))
+        in_loop = {id(n) for n in ast.walk(st)}
+        after = sorted(((n.lineno, n.col_offset, isinstance(n.ctx, ast.Load)) for n in ast.walk(caller.node)
+                        if isinstance(n, ast.Name) and n.id == tname and id(n) not in in_loop and getattr(n, "lineno", 0) > (getattr(st, "end_lineno", None) or st.lineno)))
+        # the value the loop variable is left with is looked at afterwards (the next occurrence after the loop is a read)
+        used_outside = bool(after) and after[0][2]
+
+        class Y(ast.NodeTransformer):
+            def visit_FunctionDef(self, node):
+                return node
+            visit_AsyncFunctionDef = visit_FunctionDef
+            visit_Lambda = visit_FunctionDef
+
+            def visit_Expr(self, node):
+                if isinstance(node.value, ast.Yield):
+                    val = node.value.value if node.value.value is not None else ast.copy_location(ast.Constant(value=None), node)
+                    if isinstance(val, ast.Name) and val.id not in body_stored and tname not in body_stored and not used_outside:
+                        # the loop variable is just another name for the helper's variable while the consumer's body runs
+                        return [_Rename({tname: val.id}, {}).visit(copy.deepcopy(x)) for x in st.body]
+                    asg = ast.copy_location(ast.Assign(targets=[ast.copy_location(ast.Name(id=tname, ctx=ast.Store()), st.target)], value=val), node)
+                    return [asg] + [copy.deepcopy(x) for x in st.body]
+                return node
+
+            def visit_Return(self, node):
+                return ast.copy_location(ast.Break(), node)
+        new_loop = Y().visit(body[-1])
+        new = pre + body[:-1] + ([new_loop] if not isinstance(new_loop, list) else new_loop)
+        for s2 in new:
+            ast.fix_missing_locations(s2)
+        owner = self._owner(d)
+        owner.expanded[id(d)] = owner.expanded.get(id(d), 0) + 1
+        if owner is not self:
+            self._apply_pending_imports(d)
+            self.expanded[id(d)] = self.expanded.get(id(d), 0) + 1
+        self.log.append(f"{caller.qual} <- {d.qual} (for over generator)")
+        return new
+
     # -- driver ---------------------------------------------------------------------------
     # -- generator based context managers ------------------------------------------------------------------------
     def _expand_with(self, st: ast.stmt, caller: Def) -> Optional[List[ast.stmt]]:
@@ -1221,6 +1370,8 @@ class ModuleInliner:
             new = self._expand_stmt(st, caller)
             if new is None:
                 new = self._expand_with(st, caller)
+            if new is None:
+                new = self._expand_for_gen(st, caller)
             if new is not None and isinstance(st, ast.Assign) and isinstance(st.targets[0], ast.Name) and st.targets[0].id.startswith("_inl_t") \
                     and idx + 1 < len(stmts) and isinstance(stmts[idx + 1], ast.If):
                 thr = self._try_thread(new, st.targets[0].id, stmts[idx + 1])
@@ -1484,6 +1635,16 @@ class ModuleInliner:
             outer_q, name = q.rsplit(".<locals>.", 1)
             outer = cur.get(outer_q)
             cand = [d for d in self.new if d.kind == "module" and d.node.name == name]
+            foreign = None
+            if not cand and self.imports.get(name, (None, None))[0] in self.pkg and name not in {x.node.name for x in self.defs if x.kind == "module"}:
+                # hoisted into another module of the package and imported from there
+                fm, orig = self.imports[name]
+                other = self.pkg[fm]
+                cand = [d for d in other.new if d.kind == "module" and d.node.name == orig]
+                if len(cand) == 1 and orig == name and self._foreign_ok(cand[0], other):
+                    foreign = other
+                else:
+                    cand = []
             if outer is None or len(cand) != 1:
                 continue
             g = cand[0]
@@ -1496,6 +1657,18 @@ class ModuleInliner:
             pos = 1 if (body and isinstance(body[0], ast.Expr) and isinstance(body[0].value, ast.Constant) and isinstance(body[0].value.value, str)) else 0
             body.insert(pos, copy.deepcopy(g.node))
             self.log.append(f"re-nested {g.qual} into {outer_q}")
+            if foreign is not None:
+                self._apply_pending_imports(g)
+                for n in ast.walk(self.tree):
+                    if isinstance(n, ast.ImportFrom) and any((a.asname or a.name) == name for a in n.names) and self.imports.get(name) == (foreign.modname, name):
+                        n.names = [a for a in n.names if (a.asname or a.name) != name] or [ast.alias(name="__name__", asname="_unused_import")]
+                        if n.names[0].asname == "_unused_import":
+                            n.module, n.level = "builtins", 0
+                self.imports.pop(name, None)
+                self.module_bound.discard(name)
+                foreign.expanded[id(g)] = foreign.expanded.get(id(g), 0) + 1
+                moved = True
+                continue
             others = sum(1 for n in ast.walk(self.tree) if isinstance(n, ast.Name) and n.id == name and isinstance(n.ctx, ast.Load)
                          and not any(n is x for x in ast.walk(outer.node)) and not any(n is x for x in ast.walk(g.node)))
             if not others and g.node in g.container:
@@ -1562,8 +1735,96 @@ class ModuleInliner:
             # carry the expansion counts over to the re-enumerated defs (same nodes)
             self.expanded = {id(d): n for d in self.new for k, n in old_exp.items() if k == id(d)} | old_exp
 
+    def _partial_to_closure(self):
+        """`X = partial(new_helper, a=a, b=b)` inside a function: the local closure the helper was hoisted from is written out again -
+        `def X(<remaining parameters>): <helper body with the bound parameters read as the captured names>`. Only plain names that the enclosing function
+        does not re-bind afterwards are accepted as bound values (then capturing the value and reading the name later are the same)."""
+        changed = False
+        for caller in list(self.defs):
+            host = caller.node
+            for blk in _stmt_blocks(host):
+                for i, st in enumerate(list(blk)):
+                    if not (isinstance(st, ast.Assign) and len(st.targets) == 1 and isinstance(st.targets[0], ast.Name) and isinstance(st.value, ast.Call)):
+                        continue
+                    c = st.value
+                    fname = c.func.id if isinstance(c.func, ast.Name) else (c.func.attr if isinstance(c.func, ast.Attribute) and isinstance(c.func.value, ast.Name) and c.func.value.id == "functools" else None)
+                    if fname != "partial" or not c.args or not isinstance(c.args[0], ast.Name):
+                        continue
+                    if isinstance(c.func, ast.Name) and self.imports.get("partial") != ("functools", "partial"):
+                        continue
+                    g = [d for d in self.new if d.kind == "module" and d.node.name == c.args[0].id]
+                    if len(g) != 1 or not self._eligible(g[0]) or g[0] is caller:
+                        continue
+                    g = g[0]
+                    fn = g.node
+                    if any(k.arg is None for k in c.keywords) or any(isinstance(a, ast.Starred) for a in c.args):
+                        continue
+                    pos = [a.arg for a in fn.args.args]
+                    bound: Dict[str, ast.expr] = {}
+                    okb = True
+                    for pname, a in zip(pos, c.args[1:]):
+                        bound[pname] = a
+                    if len(c.args) - 1 > len(pos):
+                        continue
+                    allp = set(pos) | {a.arg for a in fn.args.kwonlyargs}
+                    for k in c.keywords:
+                        if k.arg not in allp or k.arg in bound:
+                            okb = False
+                        bound[k.arg] = k.value
+                    if not okb or not all(isinstance(v, ast.Name) for v in bound.values()):
+                        continue
+                    stored_in_g = _stored_names(fn)
+                    if any(pn in stored_in_g for pn in bound):
+                        continue
+                    # the captured names must not be re-bound by the host after this statement
+                    later = {n.id for n in ast.walk(host) if isinstance(n, ast.Name) and isinstance(n.ctx, (ast.Store, ast.Del)) and getattr(n, "lineno", 0) > st.lineno}
+                    if any(v.id in later for v in bound.values()) or st.targets[0].id in later:
+                        continue
+                    # a captured name must not be shadowed by a local of the helper
+                    if any(v.id in stored_in_g or v.id in (allp - set(bound)) for v in bound.values() if v.id not in bound or bound.get(v.id) is not v):
+                        if any((v.id in stored_in_g or v.id in (allp - set(bound))) for v in bound.values()):
+                            continue
+                    nested = copy.deepcopy(fn)
+                    nested.name = st.targets[0].id
+                    nested.decorator_list = []
+                    a = nested.args
+                    ndef = len(a.defaults)
+                    keep_pos, keep_def = [], []
+                    defaults = [None] * (len(a.args) - ndef) + list(a.defaults)
+                    for arg_, dv in zip(a.args, defaults):
+                        if arg_.arg not in bound:
+                            keep_pos.append(arg_)
+                            keep_def.append(dv)
+                    # defaults must stay a suffix
+                    if any(d is None for d in keep_def[next((j for j, d in enumerate(keep_def) if d is not None), len(keep_def)):]):
+                        continue
+                    a.args = keep_pos
+                    a.defaults = [d for d in keep_def if d is not None]
+                    kws = [(x, d) for x, d in zip(a.kwonlyargs, a.kw_defaults) if x.arg not in bound]
+                    a.kwonlyargs = [x for x, _ in kws]
+                    a.kw_defaults = [d for _, d in kws]
+                    ren = {pn: v.id for pn, v in bound.items() if pn != v.id}
+                    if ren:
+                        for n in ast.walk(nested):
+                            if isinstance(n, ast.Name) and n.id in ren:
+                                n.id = ren[n.id]
+                    ast.copy_location(nested, st)
+                    for n in ast.walk(nested):
+                        if "lineno" in getattr(n, "_attributes", ()):
+                            n.lineno = n.end_lineno = st.lineno
+                    blk[blk.index(st)] = nested
+                    self.log.append(f"{caller.qual}: {nested.name} = partial({fn.name}, ...) written out as the local closure it stands for")
+                    self.expanded[id(g)] = self.expanded.get(id(g), 0) + 1
+                    changed = True
+        if changed:
+            self.defs = enumerate_defs(self.modname, self.tree)
+            self.new = [d for d in self.defs if d.qual not in self.known]
+
     def run(self) -> ast.Module:
+        self._partial_to_closure()
         self._renest_moved()
+        from . import restore
+        restore.restore_nested_names(self, restore.load_sources())
         self._nest_value_refs()
         self._inline_new_constants()
         if not self.new and not any(m.new for m in self.pkg.values()):
